@@ -16,7 +16,7 @@ def body(chk, db, cfgname):
     r1 = chk.rule("C12-R1", "vertex = chi + [n1=n3] beta G13(n1) G24(n2) - [n2=n3] beta G14(n1) G23(n2), with the stored values filled from the same formula", "F6 formula (rule C15-R4)", 3)
     r2 = chk.rule("C12-R2", "two-particle multi-term: poles and the six coefficients, term evaluation incl. the resonant (delta) branches, merging of like terms, table path == on-demand path", "F6 formula + tables (rules C02-R1, R2, R4, R5, R6)", 36)
     r3 = chk.rule("C12-R3", "single-particle side: G is the plain sum over parts and terms of R/(z-P) with the Lehmann residue and pole", "F5+F6 formula (rules C01-R1, C11-R2)", 10)
-    r4 = chk.rule("C12-R4", "every index quadruple: the container hands out the stored element with the frequency permutation and sign of its index order", "F7 tables + F6 (rules C13-R1, C13-R2)", 29)
+    r4 = chk.rule("C12-R4", "every index quadruple: the container hands out the stored element with the frequency permutation and sign of its index order", "F7 tables + F6 (rules C13-R1, C13-R2)", 26)
     c15.body(ViewCheck(chk, {"C15-R4": r1}), db, cfgname)
     c13.body(ViewCheck(chk, {"C13-R1": r4, "C13-R2": r4}), db, cfgname)
     c02.body(ViewCheck(chk, {"C02-R1": r2, "C02-R2": r2, "C02-R4": r2, "C02-R5": r2, "C02-R6": r2, "C02-R7": r2}), db, cfgname)
